@@ -377,6 +377,8 @@ class PolyScaleComposite(ComposedPolySampler):
         original, poly = poly, poly.copy()
 
         if scalar is not None:
+            if not scalar:
+                raise ValueError("scalar must be non-zero")
             poly.scale(scalar, ignored_terms=ignored_terms)
         else:
             poly.normalize(bias_range=bias_range, poly_range=poly_range,
